@@ -561,8 +561,25 @@ func (a *Adversary) twistedNV(h uint64) bool {
 	}
 	E := a.newBlock(h, a.r.Intn(3) == 0)
 	var m *interfaces.ConsensusRawMessage
-	variant := a.r.Intn(9)
+	variant := a.r.Intn(10)
+	lateVotes := false
 	switch {
+	case variant == 9:
+		// genuine votes and header, but the embedded proposal carries somebody else's signature (it is outside the signed header)
+		hash, blk := spi.HashOf(E), E
+		if lockHash != nil {
+			hash, blk = lockHash, lockBlk
+		}
+		inst := uint64(spi.InstanceId)
+		emb := &ref.Ref{Type: ref.PP, Inst: inst, H: h, V: v, Hash: hash}
+		embSig := &ref.Sig{Id: leader, Sig: a.garbageSig()}
+		sg := ref.Sig{Id: leader, Sig: a.sign(leader, h, ref.NVHeaderBytes(ref.NV, inst, h, v, votes))}
+		var b interfaces.Block
+		if blk != nil {
+			b = blk
+		}
+		m = ref.RawNewViewMsg(ref.NV, inst, h, v, votes, sg, emb, embSig, b)
+		lateVotes = true
 	case variant == 7 && lockHash == nil:
 		// no lock among the votes: the signed proposal names the hash of a block the nodes accepted earlier at this height,
 		// but another (never validated) block travels with the message
@@ -637,6 +654,18 @@ func (a *Adversary) twistedNV(h uint64) bool {
 		m = a.mkNV(leader, h, v, votes, hash, blk, v)
 	}
 	a.sendSome(leader, a.at(h), m, 90)
+	if lateVotes {
+		// the network now lets through the delayed votes of earlier views that are still on their way to their collectors
+		for i := 0; i < len(a.w.Pool); i++ {
+			f := a.w.Pool[i]
+			if f.Honest && f.Msg != nil && f.Msg.Env == ref.EnvVC && f.Msg.H == h && f.Msg.V <= v && a.w.IsCorrect(f.To) {
+				a.w.TakeFlight(i)
+				i--
+				a.w.Deliver(f)
+				a.w.Mon.Stats["delivered"]++
+			}
+		}
+	}
 	return true
 }
 
